@@ -333,3 +333,18 @@ CHECKS['C20'] = {
              'receiver, when a domain element, was neither empty nor universe.'),
     'assumptions': ['handles are reinterpret_casts of the C++ objects', 'risky scenarios run in forked children whose verdict comes back through a pipe'],
 }
+
+CHECKS['C14'] = {
+    'level': 'fault_enumeration',
+    'jobs': [{'engine': 'faultinj', 'variant': 'san', 'profile': 'default', 'quick': 480, 'thorough': 6400, 'avg_case_s': 2.0, 'case_timeout': 120,
+              'env': {'ASAN_OPTIONS': 'abort_on_error=0:halt_on_error=1:detect_leaks=1:detect_stack_use_after_return=1:strict_string_checks=1:exitcode=66:allocator_may_return_null=1'}}],
+    'prefixes': ['C14.'],
+    'required_counters': ['inj.alloc', 'alloc.thrown', 'inj.abandon', 'abandon.thrown', 'inj.weight', 'weight.thrown', 'rejects', 'leak_checks', 'table.scenarios', 'table.rejects'],
+    'rule': ('case = one scenario (one operation of one domain/solver on generated arguments, 599 scenario kinds over polyhedra, grids, BD shapes and octagons over mpq and int8, boxes, powersets, '
+             'products, MIP, PIP, expressions/rows/trees/systems in both representations) or 12 rejected calls (690 op x ill-formedness entries); for each scenario the k-th allocation '
+             '(operator new + GMP) is made to fail for a stride of k plus the last 10 (every k in thorough), every abandonment checkpoint is fired and weight thresholds are spread over the measured '
+             'weight; evaluations = post-condition checks (only the injected exception leaves, OK/usable/assignable/destructible per object, library canary, in-process LeakSanitizer check, exception '
+             'type and value-unchanged for rejected calls); distinct_nontrivial = distinct (scenario, failing-allocation call site | checkpoint index | weight bucket) whose injected exception actually '
+             'propagated, plus distinct reject entries, counted by hashing.'),
+    'assumptions': ['one fault per call (no double faults)', 'LeakSanitizer reachability (a leak may be attributed one failure point late)', 'every case runs in a forked child'],
+}
